@@ -24,6 +24,7 @@
 (*   cond / count:  [m |-> "none"] | [m |-> "const", v] | [m |-> "field", f]*)
 (*          | [m |-> "expr", e, form]      form = "deferred" | "lambda"     *)
 (*   desc:  [kind |-> "none"] | [kind |-> "autolen", of] | [kind |-> "auto", e]*)
+(*          | [kind |-> "verify"|"check", e] | [kind |-> "bounded", of, limit]  *)
 (* The same records, printed by ToJson, are what /verif/bind/declgen.py     *)
 (* renders to Python source.                                                *)
 (***************************************************************************)
